@@ -282,6 +282,8 @@ def mk_html_suffix(pi, n):
         r = check_html_tags(s, html_tags(s))
         if r is not True:
             return r
+        if len(R) > n - 1:
+            return True if pos == 0 else 'skip'     # matcher relations are explored for suffixes one character shorter
         return inner(s, pos)
 
     def twin(R: str, pos: int):
@@ -289,7 +291,7 @@ def mk_html_suffix(pi, n):
             return 'skip'
         return 'twin' if html_tags(head + R) else True
     return {'fn': h, 'twin': twin if pi not in (6, 7) else None, 'witnesses': [{'R': '', 'pos': 3}, {'R': '>'[:n], 'pos': 1}],
-            'assumptions': ['document = %r + R, R any ASCII string of <=%d characters; pos any integer' % (head, n)],
+            'assumptions': ['document = %r + R, R any ASCII string of <=%d characters (scanner); matcher relations with any integer pos for R of <=%d characters' % (head, n, n - 1)],
             'functions': ['emmet.html_matcher.scan.scan', 'match', 'balanced_outward', 'balanced_inward']}
 
 
@@ -312,6 +314,8 @@ def mk_css_suffix(pi, n):
         for (t, a, b, d) in toks:
             if not rng_ok(a, b, len(s)):
                 return 'range_out_of_bounds'
+        if len(R) > n - 1:
+            return True if pos == 0 else 'skip'
         return inner(s, pos)
 
     def twin(R: str, pos: int):
@@ -319,7 +323,7 @@ def mk_css_suffix(pi, n):
             return 'skip'
         return 'twin'
     return {'fn': h, 'twin': twin, 'witnesses': [{'R': '', 'pos': 3}, {'R': '}'[:n], 'pos': 1}],
-            'assumptions': ['stylesheet = %r + R, R any ASCII string of <=%d characters; pos any integer' % (head, n)],
+            'assumptions': ['stylesheet = %r + R, R any ASCII string of <=%d characters (scanner); matcher relations with any integer pos for R of <=%d characters' % (head, n, n - 1)],
             'functions': ['emmet.css_matcher.scan.scan', 'match', 'balanced_outward', 'balanced_inward']}
 
 
